@@ -575,20 +575,29 @@ fn c08_large(rng: &mut Rng, kinds: &[Specs]) {
         case = boundary_case(rng, 70, 140, kinds, &wcl);
         tries += 1;
     }
+    let mut first_source: Option<usize> = None;
     if rng.coin() {
-        // chained hubs: every leaf is improved several times during one search
-        let n = case.n();
-        let hubs: Vec<usize> = (0..4).map(|_| rng.below(n)).collect();
-        for w in hubs.windows(2) {
-            case.edges.push((w[0], w[1], case.wclass.draw(rng)));
+        // improvement cascade: a chain of hubs, each of which strictly improves the tentative
+        // distance of every leaf (many superseded entries in any lazy-deletion queue)
+        let k = rng.range(4, 8);
+        let leaves = rng.range(70, 130);
+        let n = k + leaves;
+        let specs = *rng.pick(kinds);
+        let names = scrambled_names(n, rng);
+        let mut edges = vec![];
+        let step = *rng.pick(&[1.0, 0.5, 2.0]);
+        for h in 1..k {
+            edges.push((h - 1, h, step));
         }
-        for v in 0..n {
-            for h in &hubs {
-                if *h != v && rng.chance(2, 3) {
-                    case.edges.push((*h, v, case.wclass.draw(rng)));
-                }
+        for h in 0..k {
+            for l in 0..leaves {
+                edges.push((h, k + l, 100.0 - (1.0 + step) * h as f64 * 2.0 + (l % 7) as f64));
             }
         }
+        rng.shuffle(&mut edges);
+        case = GCase { specs: Specs::kind(specs.directed, false, false), names, edges, family: "improvement-cascade", wclass: WClass::Exact };
+        first_source = Some(0);
+        ctx::count("reach:improvement-cascade");
     }
     ctx::case_desc(case.json());
     ctx::count("reach:graph-with-70-or-more-nodes");
@@ -597,8 +606,11 @@ fn c08_large(rng: &mut Rng, kinds: &[Specs]) {
     let kind = kind_class(&g);
     let weighted = case.wclass.weighted();
     let n = d.n;
-    for _ in 0..6 {
-        let s = rng.below(n);
+    for round in 0..6 {
+        let s = match (round, first_source) {
+            (0, Some(h0)) => d.idx[&case.names[h0]],
+            _ => rng.below(n),
+        };
         let src = d.names[s].clone();
         let basic = match guard("dijkstra::single_source", || dijkstra::single_source(&g, weighted, src.clone(), None, None, false, false)) {
             Ok(Ok(m)) => m,
